@@ -56,10 +56,22 @@ def alphabet(fam, tier):
     ops += [["predict", "default", "m1"], ["predict", "default", "b2"], ["predict", "fpv", "m1"]]
     ops += [["train"], ["eval"], ["step"], ["load", 1], ["load", 0]]
     if not models.is_var(fam):
-        ops += [["set_data", 1], ["set_data", 0], ["fantasy"], ["prior"]]
+        ops += [["set_data", 1], ["set_data", 0], ["set_inputs", 2], ["set_targets", 2], ["fantasy"], ["prior"]]
     else:
         ops += [["kl"], ["train_forward"], ["fantasy"]]
     ops += [["backward"], ["lik_train"], ["lik_eval"], ["zero_grad"]]
+    return ops
+
+
+def core_alphabet(fam):
+    """smaller alphabet explored one level deeper: one representative per kind of operation"""
+    if models.is_var(fam):
+        ops = [["predict", "default", "m3"], ["predict", "skip", "m3"], ["predict", "default", "b2"], ["train"], ["eval"], ["step"],
+               ["load", 1], ["kl"], ["train_forward"], ["backward"]]
+    else:
+        second = {"sgpr": "fpv", "kiss": "fps"}.get(fam, "fpv")
+        ops = [["predict", "default", "m3"], ["predict", second, "m3"], ["predict", "default", "m1"], ["train"], ["eval"], ["step"],
+               ["load", 1], ["set_data", 1], ["set_inputs", 2], ["fantasy"], ["backward"]]
     return ops
 
 
@@ -89,6 +101,7 @@ class World:
     def __init__(self, fam, seed):
         self.fam, self.seed = fam, seed
         self.data_idx = 0
+        self.custom_X = self.custom_y = None
         self.model = self.fresh_with(models.perturbed_state(fam, seed, 0, models.data(seed, 0, fam)), 0)
         self.mode = "eval"
         self.cache_hits = 0
@@ -130,7 +143,12 @@ class World:
         return ref
 
     def current_data(self):
-        return models.data(self.seed, self.data_idx, self.fam)
+        X, y = models.data(self.seed, self.data_idx, self.fam)
+        if self.custom_X is not None:
+            X = self.custom_X
+        if self.custom_y is not None:
+            y = self.custom_y
+        return X, y
 
     def has_cache(self):
         m = self.model
@@ -163,6 +181,19 @@ class World:
             X, y = models.data(self.seed, op[1], self.fam)
             m.set_train_data(X, y, strict=False)
             self.data_idx = op[1]
+            self.custom_X = self.custom_y = None
+        elif k == "set_inputs":  # inputs only (same n), targets kept
+            X, _ = models.data(self.seed, op[1], self.fam)
+            if X.shape != m.train_inputs[0].shape:
+                X = X[: m.train_inputs[0].shape[-2]] if X.shape[-2] >= m.train_inputs[0].shape[-2] else torch.cat([X, X[:1] + 0.37], -2)
+            m.set_train_data(inputs=X, strict=False)
+            self.custom_X = X
+        elif k == "set_targets":
+            _, y = models.data(self.seed, op[1], self.fam)
+            n = m.train_targets.shape[0]
+            y = y[:n] if y.shape[0] >= n else torch.cat([y, y[:1] + 0.11], 0)
+            m.set_train_data(targets=y, strict=False)
+            self.custom_y = y
         elif k == "load":
             m.load_state_dict(models.perturbed_state(self.fam, self.seed, op[1], models.data(self.seed, 0, self.fam)))
         elif k == "step":
@@ -255,7 +286,7 @@ def run_history(cell, seed):
             notes["rejected_transitions"] = 1
             sig = "rejected:" + type(raised).__name__
             feats["raised"] = util.exc_str(raised)[:120]
-    digest = canon.digest([w.model, w.data_idx])
+    digest = canon.digest([w.model, w.data_idx, w.custom_X, w.custom_y])
     if hist[-1][0] != "predict" and w.mode == "eval" and sig.startswith("rejected"):
         # probe right after a failed operation (taken after the digest: the probe is not part of the state)
         op = ["predict", "default", "m3"]
@@ -283,6 +314,9 @@ def main(ctx):
         st = explorer.bfs(ctx, "run_history", {"fam": fam}, alphabet(fam, ctx.tier), depth, dedupe=True, enabled=enabled, label=fam)
         per[fam] = {k: st[k] for k in ("depth_completed", "histories", "states", "merged")}
         per[fam]["alphabet"] = len(alphabet(fam, ctx.tier))
+        st = explorer.bfs(ctx, "run_history", {"fam": fam}, core_alphabet(fam), depth + 1, dedupe=True, enabled=enabled, label=fam + "/core")
+        per[fam + "/core"] = {k: st[k] for k in ("depth_completed", "histories", "states", "merged")}
+        per[fam + "/core"]["alphabet"] = len(core_alphabet(fam))
     ctx.extra["per_family"] = per
     ctx.bound = {"depth": dict(fams)}
     ctx.extra["cache_hits"] = ctx.notes.get("cache_hits", 0)
